@@ -1323,6 +1323,8 @@ def oracle_join(h):
             fails.append(("C03", "peer %d never completes its join (Connected + InitialSyncFinished)" % e["peer"], {}))
     host = last_state(h, i, 0)
     npeers = 1 + max([0] + [p for p in cfg])
+    binds_ = {b["h"]: b["uuid"] for b in h.events if b["ev"] == "bind"}
+    away_written = set((e["peer"], binds_.get(e["h"]), e["ty"]) for e in h.events if e["ev"] == "away_write")
     for p in range(1, npeers):
         st = last_state(h, i, p)
         if st is None or st.get("client_state") != "Connected":
@@ -1367,6 +1369,13 @@ def oracle_join(h):
                 if ty in ("HMat", "HMesh") and False:
                     continue
                 if a["comps"].get(ty) != b["comps"].get(ty):
+                    if who == "returning client" and (p, u, ty) in away_written:
+                        # D22: the snapshot the returning client asked for is built before the host applies what the client wrote while
+                        # its link was down (the backlog leaves one frame after the request): the host adopts the client's value,
+                        # the client is set back to the host's old one
+                        fails.append(("C03", "%s %d wrote while its link was down: after the join the host holds the client's value and the client the host's old one"
+                                      % (who, p), {"uuid": u[:8], "ty": ty}))
+                        continue
                     fails.append(("C03", "%s %d holds a different %s value than the host" % (who, p, "component"), {"uuid": u[:8], "ty": ty,
                                   "host": (a["comps"].get(ty) or "absent")[-12:], "peer": (b["comps"].get(ty) or "absent")[-12:]}))
                     break
